@@ -381,10 +381,30 @@ class StmtMixin:
             st.vars[(a.asname or a.name).split('.')[0]] = ModuleV(a.name)
 
     def ex_With(self, node, st):
-        raise Unsupported('with statement')
+        """`with multiprocessing.Pool(...) as p:` -- the only context manager in the verified subset (entering / leaving the
+        pool has no effect the functions under contract can observe)."""
+        if len(node.items) != 1:
+            raise Unsupported('with statement with several items')
+        item = node.items[0]
+        ctx = self.ev(item.context_expr, st)
+        if not isinstance(ctx, PoolV):
+            raise Unsupported('with statement over %r' % (ctx,))
+        if item.optional_vars is not None:
+            self.assign(item.optional_vars, ctx, st, node)
+        self.exec_block(node.body, st)
 
     def ex_Try(self, node, st):
-        raise Unsupported('try statement')
+        """`try: import <module> ... except ImportError: ...` -- the import of a standard-library module is assumed to
+        succeed (A3), the handler is dropped (stated in the evidence).  Every other try statement is outside the subset."""
+        only_import = all(isinstance(b, (ast.Import, ast.ImportFrom)) or
+                          (isinstance(b, ast.Expr) and isinstance(b.value, ast.Call)) for b in node.body) and \
+            any(isinstance(b, (ast.Import, ast.ImportFrom)) for b in node.body)
+        handlers_ok = all(isinstance(h.type, ast.Name) and h.type.id == 'ImportError' for h in node.handlers)
+        if not (only_import and handlers_ok and not node.orelse and not node.finalbody):
+            raise Unsupported('try statement')
+        self.notes.add('dropped: except ImportError handler around the import at line %s (the import is assumed to succeed)'
+                       % getattr(node, 'lineno', '?'))
+        self.exec_block(node.body, st)
 
     # ------------------------------------------------------------------ assignment
     def assign(self, t, v, st, node):
